@@ -78,6 +78,18 @@ def check_config(chk, prog, cfg):
         if len(init) == 1 and init[0][0] == "call" and init[0][1]["name"] in ("core::mem::replace",):
             entry = ("var", l, b.names[l])
             entry_init = init[0]
+    PFX = ""          # where the tracked local sits inside the PortableType entry ("" = the whole entry, ".ty" = its `ty` part)
+    if entry is None:
+        # `let PortableType { id: _, mut ty } = mem::replace(&mut types[id], placeholder)`: the taken entry is held by its parts; the label is
+        # given when the entry is put back as `PortableType { id: new_id, ty }`
+        for l in sorted(b.mut_borrowed()):
+            if l not in b.names:
+                continue
+            init = b.var_init(l)
+            if len(init) == 1 and init[0][0] == "field" and init[0][3] == "ty" and init[0][1][0] == "call" and init[0][1][1]["name"] == "core::mem::replace":
+                entry = ("var", l, b.names[l])
+                entry_init = init[0][1]
+                PFX = ".ty"
     swap_form = None
     if entry is None:
         # `let mut e = placeholder_type(); mem::swap(&mut e, &mut types[id as usize]);` takes the entry out just the same
@@ -205,6 +217,7 @@ def check_config(chk, prog, cfg):
             continue
         root, p = ap[0], paths.norm(ap[1])
         if root == entry:
+            p = PFX + p
             if p == ".id":
                 label_store = (bb, val)
                 continue
@@ -228,7 +241,7 @@ def check_config(chk, prog, cfg):
                 inner = v[2][0]
                 if inner[0] == "call" and inner[1]["name"] == mir.strip_generics(rt_path) and len(inner[2]) == 4:
                     a0 = paths.access_path(b, inner[2][0], roots={entry})
-                    same_place = a0 is not None and a0[0] == entry and paths.norm(a0[1]) == q + ".id"
+                    same_place = a0 is not None and a0[0] == entry and PFX + paths.norm(a0[1]) == q + ".id"
                     pass_through = (mir.strip_transparent(inner[2][1]) == A_TYPES and mir.strip_transparent(inner[2][2]) == A_NEW
                                     and mir.strip_transparent(inner[2][3]) == A_MAP)
                     okv = same_place and pass_through
@@ -256,7 +269,7 @@ def check_config(chk, prog, cfg):
         ap = paths.access_path(b, ct_[2][0], roots={entry})
         q = None
         if ap is not None and ap[0] == entry:
-            p_ = paths.norm(ap[1])
+            p_ = PFX + paths.norm(ap[1])
             q = next((x for x in id_places if x == p_), None)
         pass_through = len(ct_[2]) == 4 and mir.strip_transparent(ct_[2][1]) == A_TYPES and mir.strip_transparent(ct_[2][2]) == A_NEW and mir.strip_transparent(ct_[2][3]) == A_MAP
         if q is None:
@@ -277,6 +290,10 @@ def check_config(chk, prog, cfg):
             chk.ok("R10.E", "place:" + q, W(lst[0][1]), "rewritten with From(retain_type(<entry>%s.id, types, new_types, retained_mappings))" % q, cfg)
 
     # label
+    if label_store is None and PFX and final_store is not None:
+        fv = final_store[2]
+        if fv[0] == "agg" and fv[1] == "adt" and fv[2].get("adt") == ROOT_ADT:
+            label_store = (final_store[0], mir.agg_field(fv, "id"))
     chk.expect(label_store is not None and is_new_id(label_store[1]), "R10.O", "retain_type:entry.id=new_id",
                W(label_store[0] if label_store else None),
                "entry.id := %s" % (path_str(label_store[1]) if label_store else "<never written>"), cfg)
@@ -287,10 +304,16 @@ def check_config(chk, prog, cfg):
         fbb, flhs, fval = final_store
         tgt = mir.strip_transparent(flhs)
         # IndexMut::index_mut(new_types, new_id as usize)
+        def put_back(v):
+            if v == entry and not PFX:
+                return True
+            if PFX and v[0] == "agg" and v[1] == "adt" and v[2].get("adt") == ROOT_ADT and mir.agg_field(v, "ty") == entry:
+                return True
+            return False
         if tgt[0] == "call" and last(tgt[1]["name"]) == "index_mut" and is_arg(tgt[2][0], A_NEW) and is_new_id(tgt[2][1]):
-            okf = fval == entry
+            okf = put_back(fval)
         elif tgt[0] == "index" and is_arg(tgt[1], A_NEW) and is_new_id(tgt[2]):
-            okf = fval == entry
+            okf = put_back(fval)
         chk.expect(okf, "R10.O", "retain_type:final-store", W(fbb), "%s := %s" % (path_str(flhs), path_str(fval)), cfg)
         rewrite_bbs = [x[1] for lst in seen_id_store.values() for x in lst]
         chk.expect(b.postdominates(fbb, push_bb) and all(b.postdominates(fbb, r) for r in rewrite_bbs), "R10.O",
@@ -327,7 +350,7 @@ def check_config(chk, prog, cfg):
         d = b.operand_term(t["discr"])
         if d[0] == "discr":
             ap = paths.access_path(b, d[1], roots={entry})
-            if ap and ap[0] == entry and paths.norm(ap[1]) == ".ty.type_def":
+            if ap and ap[0] == entry and PFX + paths.norm(ap[1]) == ".ty.type_def":
                 found = True
                 arms = {int(a[0]) for a in t["arms"]}
                 want = {int(v["discr"]) for v in td["variants"]}
